@@ -61,7 +61,7 @@ static inline Xml::Variant& X(char* p) { return *(Xml::Variant*)p; }
 static inline P& PT(char* p) { return *(P*)p; }
 
 static String mkString(const std::string& s) { return String(s.c_str(), s.size()); }
-static std::string genStr(uint64_t v) { static const char* w[] = {"", "a", "Bc", "hello", "World42", "xyzxyzxyzxyzxyzxyz", "MiXeD Case 0123456789 abcdefghijklmnopqrstuvwxyz"}; std::string s = w[v % 7]; if ((v / 7) % 3 == 0) s += std::to_string(v % 1000); if ((v / 21) % 4 == 0) s += (v / 84) % 2 ? " \t" : " "; if ((v / 168) % 5 == 0) s = " " + s; return s; }
+static std::string genStr(uint64_t v) { static const char* w[] = {"", "a", "Bc", "hello", "World42", "xyzxyzxyzxyzxyzxyz", "MiXeD Case 0123456789 abcdefghijklmnopqrstuvwxyz"}; std::string s = w[v % 7]; if ((v / 7) % 3 == 0) s += std::to_string(v % 1000); if ((v / 21) % 3 == 0) s += (v / 84) % 2 ? " \t" : " "; if ((v / 168) % 5 == 0) s = " " + s; return s; }
 
 // build a real value in *p (raw memory) from a model value
 static void construct(char* p, const Val& v);
@@ -153,7 +153,12 @@ static void mutate(int w, int j, uint64_t kind, uint64_t param) {
   switch (C.fam) {
   case F_STRING: {
     String& s = S(p);
-    switch (kind % 16) {
+    switch (kind % 24 >= 20 ? 9 : kind % 24) {     /* trim is drawn more often than the others: it is the one mutator whose effect depends on what the ends of the string look like */
+    /* the argument is the handle itself */
+    case 16: { std::string old = m.s; s.append(s); m.s = old + old; probe("self_append"); break; }
+    case 17: break;   /* (s.prepend(s) is not generated: on the unchanged library it yields old + uninitialised bytes - a value-model defect of String itself, DESIGN.md O9, not a question of shared payloads) */
+    case 18: { std::string old = m.s; s += s; m.s = old + old; probe("self_append"); break; }
+    case 19: { List<String> toks; toks.append(mkString(gs)); std::string old = m.s; if (!old.empty()) { s.replace(s, mkString(gs)); m.s = gs; } break; }   /* needle is the string itself */
     case 9: { s.trim(); static const char ws[] = " \t\r\n\v"; size_t b = 0, e = m.s.size(); while (b < e && strchr(ws, m.s[b])) ++b; while (e > b && strchr(ws, m.s[e - 1])) --e; if (b == 0 && e < m.s.size()) probe("trim_trailing_only"); m.s = m.s.substr(b, e - b); break; }
     case 10: s.toUpperCase(); for (auto& c : m.s) if (c >= 'a' && c <= 'z') c -= 32; break;
     case 11: { static const char* nd[] = {"a", "xyz", "l", "42"}; std::string needle = nd[param % 4]; s.replace(mkString(needle), mkString(gs)); std::string out; size_t pos = 0; for (;;) { size_t f = m.s.find(needle, pos); if (f == std::string::npos) { out += m.s.substr(pos); break; } out += m.s.substr(pos, f - pos); out += gs; pos = f + needle.size(); } m.s = out; break; }
